@@ -210,14 +210,24 @@ fn start_watchdog(hang_file: PathBuf, sub_name: &'static Mutex<String>) {
     std::thread::spawn(move || loop {
         std::thread::sleep(Duration::from_millis(250));
         if CASE_ACTIVE.load(Ordering::SeqCst) {
-            let started = CASE_STARTED_CPU_MS.load(Ordering::SeqCst);
             let now = cpu_ms();
-            if now > started + HANG_CPU_MS {
+            // the code under test: one call that burns more than HANG_CPU_MS of CPU is a hang
+            let impl_started = crate::imp::IMPL_STARTED_CPU_MS.load(Ordering::SeqCst);
+            if impl_started != 0 && now > impl_started + HANG_CPU_MS {
                 let case = CURRENT_CASE.lock().map(|c| c.clone()).unwrap_or(None).unwrap_or_default();
                 let sub = sub_name.lock().map(|s| s.clone()).unwrap_or_default();
-                let rec = json!({"sub": sub, "case_text": case, "msg": format!("one case used more than {} ms of CPU time (hang)", HANG_CPU_MS)});
+                let rec = json!({"sub": sub, "case_text": case, "msg": format!("one evaluation by the implementation used more than {} ms of CPU time although the reference model finds the case cheap (hang)", HANG_CPU_MS)});
                 let _ = std::fs::write(&hang_file, rec.to_string());
                 unsafe { libc::_exit(97) };
+            }
+            // the whole case (oracle included): far above any sensible cost means the *check* is too slow - inconclusive
+            let started = CASE_STARTED_CPU_MS.load(Ordering::SeqCst);
+            if now > started + 15 * HANG_CPU_MS {
+                let case = CURRENT_CASE.lock().map(|c| c.clone()).unwrap_or(None).unwrap_or_default();
+                let sub = sub_name.lock().map(|s| s.clone()).unwrap_or_default();
+                let rec = json!({"sub": sub, "case_text": case, "oracle_slow": true, "msg": "the check itself (oracle + implementation calls) used more than 300 s of CPU on one case"});
+                let _ = std::fs::write(&hang_file, rec.to_string());
+                unsafe { libc::_exit(98) };
             }
         }
     });
